@@ -1,0 +1,16 @@
+package fsutil
+
+import (
+	"bufio"
+	"io"
+	"math"
+)
+
+// NewLineScanner returns a line scanner without bufio.Scanner's default limit of 64 KiB per line:
+// a commit subject, a config value or an ignore rule may be longer than that, and a scanner that
+// gives up in the middle of a file silently drops the rest of it.
+func NewLineScanner(r io.Reader) *bufio.Scanner {
+	scanner := bufio.NewScanner(r)
+	scanner.Buffer(make([]byte, 0, 64*1024), math.MaxInt32)
+	return scanner
+}
